@@ -1,6 +1,7 @@
 import PoolProofs.C07LemmasModify
 import PoolProofs.C07LemmasClose
 import PoolProofs.C07LemmasDeposit
+import PoolProofs.C07LemmasOverflow
 
 /-!
 # C07 — deposits, withdrawals, renewals and closures conserve the account's funds
@@ -337,6 +338,29 @@ theorem C07_versions_preserved (so : ScriptOf) (a : Account) (v : Int) (ne : Opt
   · exact Nat.max_le.mpr ⟨ha, hn⟩
   · exact Nat.le_max_left _ _
 
+/-! ## int64 -/
+
+/-- **C07_no_int64_overflow**: inside the domain guard `InDomain` (account value and every requested amount within
+±21e14 sat, fee rate 0..1e9 sat/kw, ≤ 1000 outputs) every intermediate value of `valueAfterAccountUpdate` (all
+running output totals, `feeRate·weight`, the fee, both subtractions) and of `OutputWithFee.CloseOutputs` lies in the
+`int64` range, so Go's wrapped `int64` arithmetic coincides with the model's unbounded integers there. -/
+theorem C07_no_int64_overflow :
+    (∀ (value rate : Int) (outs : List TxOut) (wt : Nat) (v : Int), InDomain value rate outs →
+      valueAfterAccountUpdate value outs wt rate = .ok v →
+      ∃ w t, witnessSize wt = some w ∧
+        vauLoop ((({} : Twe).addWitnessInput w).addOutput baseAccountOutputSize) 0 outs = .ok (t, sumValues outs) ∧
+        (∀ k, I64 (sumValues (outs.take k))) ∧ I64 (sumValues outs) ∧
+        (t.weight : Int) ≤ 200000 ∧ I64 (rate * (t.weight : Int)) ∧ I64 (feeForWeight rate t.weight) ∧
+        I64 (value - sumValues outs) ∧ I64 (value - sumValues outs - feeForWeight rate t.weight) ∧
+        v = value - sumValues outs - feeForWeight rate t.weight) ∧
+    (∀ (s : Script) (r value : Int) (wt : Nat) (outs : List TxOut),
+      0 ≤ value ∧ value ≤ 2100000000000000 → 0 ≤ r ∧ r ≤ 1000000000 →
+      outputWithFeeCloseOutputs s r value wt = .ok outs →
+      ∃ w W : Nat, witnessSize wt = some w ∧ W = (8 + 1 + 41 + 1 + (9 + s.length)) * 4 + 2 + w ∧ W ≤ 200000 ∧
+        I64 (r * (W : Int)) ∧ I64 (feeForWeight r W) ∧ I64 (value - feeForWeight r W) ∧
+        outs = [⟨value - feeForWeight r W, s⟩]) :=
+  ⟨fun _ _ _ _ _ hd h => vau_no_overflow hd h, fun _ _ _ _ _ hv hr h => owf_no_overflow hv hr h⟩
+
 /-! ## refusals -/
 
 /-- **C07_refusals_no_effect**: if an operation leaves ANY effect (auctioneer request, store write or broadcast),
@@ -444,5 +468,10 @@ example : (withdraw exSo exAcct [⟨293, exOut.script⟩] 253 800000 0 0 {}).tra
 
 set_option maxRecDepth 100000 in
 example : (applyMods exAcct (createNewAccountOutput exSo exAcct 5 none 2).2).version = 2 := by decide
+
+example : InDomain 1000000 253 [exOut] :=
+  ⟨by decide, by decide, by intro o ho; simp [exOut] at ho; subst ho; decide, by decide⟩
+set_option maxRecDepth 100000 in
+example : (valueAfterAccountUpdate 1000000 [exOut] 1 253).toOption = some 799816 := by decide
 
 end Pool.C07
